@@ -18,7 +18,7 @@
 From Coq Require Import ZArith List Bool.
 From TD Require Import Lib.Bytes Lib.GoSem Gen.CodecConsts Model.Codec Model.CodecSend
   Proof.Codec Proof.CodecRT Proof.CodecSend Lib.ReadFull Proof.ReadFullInst.
-From TD Require Model.Obfs2 Proof.Obfs2Listen.
+From TD Require Model.Obfs2 Model.FakeTls Proof.Obfs2 Proof.Obfs2Listen Proof.TransportStack.
 Import ListNotations.
 Open Scope Z_scope.
 
@@ -106,6 +106,61 @@ Theorem C16_detect_obfuscated :
 Proof. exact Obfs2Listen.obf_listener_detect. Qed.
 Print Assumptions C16_detect_obfuscated.
 
+(* The layers stacked as transport.ObfuscatedListener / the mtproxy dialer stack them.
+   Codec over obfuscated2: a client announces tagged codec c in an obfuscated2 handshake and
+   writes the frames of [ps] through the obfuscated connection in any conn.Write calls [ws]; the
+   ciphertext reaches the server in any deliveries [dl] (an error may accompany the last one).
+   Then Accept succeeds on header ++ ciphertext, the replayed tag makes detection choose c, and
+   the frames read from the decrypted stream are exactly ps, then EOF.  For every keystream, every
+   SHA-256, every CRC with 32-bit range, every DC id, secret and random stream. *)
+Theorem C16_stream_over_obfuscated :
+  forall (crc : list Z -> Z), (forall x, 0 <= crc x < 2 ^ 32) ->
+  forall (ks : list Z -> list Z -> Z -> Z) (sha256 : list Z -> list Z)
+         (c : codec) (seq : Z) (rnd : Z -> list Z) (ps : list (list Z)) (W : list Z)
+         (fuel_i : nat) (orand : list Z) (dc : Z) (secret hdr : list Z) (cep : Obfs2.endpoint) (orest : list Z)
+         (ws : list (list Z)) (dl : list (list Z * bool)) (fuel : nat),
+    c <> Full -> (forall i, length (rnd i) = 4%nat) ->
+    Forall (frame_ok c) ps -> (length ps < fuel)%nat ->
+    write_all crc c seq rnd ps = Ok W -> concat ws = W ->
+    Obfs2.client_handshake ks sha256 fuel_i orand (Obfs2Listen.obf_tag c) dc secret = Ok (hdr, cep, orest) ->
+    let X := Obfs2.send_on ks (Obfs2.enc cep) ws in
+    concat (map fst dl) = X -> Proof.Obfs2.err_only_last dl ->
+    exists p d sep,
+      Obfs2.server_accept ks sha256 (hdr ++ X) secret = Ok ((p, d), sep, X) /\
+      let plain := Obfs2.recv_on ks (Obfs2.dec sep) dl in
+      detect (Obfs2.replay_tag p ++ plain) = Ok (c, plain) /\
+      read_stream crc c seq fuel plain = (ps, StopErr EEof).
+Proof. intros crc Hc ks sha. exact (TransportStack.stream_over_obfuscated crc Hc ks sha). Qed.
+Print Assumptions C16_stream_over_obfuscated.
+
+(* ... with FakeTLS underneath: header and ciphertext pass through FakeTLS.Write calls [xs] of any
+   sizes and are read back at the far end with any positive buffer sizes [ks_read]: the records
+   deliver exactly header ++ ciphertext, and the layers above deliver ps. *)
+Theorem C16_stream_over_faketls :
+  forall (crc : list Z -> Z), (forall x, 0 <= crc x < 2 ^ 32) ->
+  forall (ks : list Z -> list Z -> Z -> Z) (sha256 : list Z -> list Z)
+         (c : codec) (seq : Z) (rnd : Z -> list Z) (ps : list (list Z)) (W : list Z)
+         (fuel_i : nat) (orand : list Z) (dc : Z) (secret hdr : list Z) (cep : Obfs2.endpoint) (orest : list Z)
+         (ws xs : list (list Z)) (ks_read : nat -> Z) (fuel_t : nat) (dl : list (list Z * bool)) (fuel : nat),
+    c <> Full -> (forall i, length (rnd i) = 4%nat) ->
+    Forall (frame_ok c) ps -> (length ps < fuel)%nat ->
+    write_all crc c seq rnd ps = Ok W -> concat ws = W ->
+    Obfs2.client_handshake ks sha256 fuel_i orand (Obfs2Listen.obf_tag c) dc secret = Ok (hdr, cep, orest) ->
+    let X := Obfs2.send_on ks (Obfs2.enc cep) ws in
+    concat xs = hdr ++ X ->
+    (forall j, 1 <= ks_read j) -> (length (hdr ++ X) < fuel_t)%nat ->
+    concat (map fst dl) = X -> Proof.Obfs2.err_only_last dl ->
+    exists T,
+      FakeTls.ftls_write_all false xs = Ok T /\
+      FakeTls.drain fuel_t ks_read 0 ([], T) = (hdr ++ X, FakeTls.TEof) /\
+      exists p d sep,
+        Obfs2.server_accept ks sha256 (hdr ++ X) secret = Ok ((p, d), sep, X) /\
+        let plain := Obfs2.recv_on ks (Obfs2.dec sep) dl in
+        detect (Obfs2.replay_tag p ++ plain) = Ok (c, plain) /\
+        read_stream crc c seq fuel plain = (ps, StopErr EEof).
+Proof. intros crc Hc ks sha. exact (TransportStack.stream_over_faketls crc Hc ks sha). Qed.
+Print Assumptions C16_stream_over_faketls.
+
 (* Concurrent senders on one connection.  Transition system of Model/CodecSend.v: Send = lock;
    codec.Write in any number of conn.Write calls, frame number taken under the lock; unlock.  A
    conn.Write may also FAIL after any number of bytes (write deadline taken from ctx, closed
@@ -180,6 +235,12 @@ Proof.
   - repeat constructor; cbv; congruence.
   - destruct c; cbv; congruence.
 Qed.
+(* the stacked theorems' handshake hypothesis is satisfiable *)
+Example C16_stack_handshake_exists :
+  exists hdr cep rest,
+    Obfs2.client_handshake (fun _ _ p => p mod 256) (fun x => x) 2 (repeat 7 64)
+                           (Obfs2Listen.obf_tag Intermediate) 2 [] = Ok (hdr, cep, rest).
+Proof. do 3 eexists. vm_compute. reflexivity. Qed.
 (* a concrete two-sender schedule in which sender 1 overtakes sender 0 *)
 Example C16_senders_run :
   let q0 := fun i => match i with 0%nat => [[1;2;3;4;5;6;7;8]] | 1%nat => [[9;9;9;9;9;9;9;9]] | _ => [] end in
